@@ -7,23 +7,24 @@
 -/
 import Proofs.Lemmas.AesApi
 import Proofs.C02_Aes.GmulAll
+import Proofs.C02_Aes.SpecFacts
 namespace Proofs.C02_Aes
 open Model Proofs.Aes
 
 /-! ### the standard's own objects behave as the standard says (sanity of Spec.Aes, kernel-checked) -/
 
 /-- `gfinv` is the multiplicative inverse in GF(2^8) (every non-zero element), and 0 ↦ 0 -/
-theorem gfinv_is_inverse : ∀ b < 256, Spec.Aes.gfmul b (Spec.Aes.gfinv b) = (if b = 0 then 0 else 1) := by decide +kernel
+theorem gfinv_is_inverse : ∀ b < 256, Spec.Aes.gfmul b (Spec.Aes.gfinv b) = (if b = 0 then 0 else 1) := SpecFacts.gfinv_is_inverse
 
 /-- `xtime` is multiplication by x = {02} -/
-theorem xtime_is_mul_x : ∀ b < 256, Spec.Aes.xtime b = Spec.Aes.gfmul b 2 ∧ Spec.Aes.xtime b = Spec.Aes.gfmul 2 b := by decide +kernel
+theorem xtime_is_mul_x : ∀ b < 256, Spec.Aes.xtime b = Spec.Aes.gfmul b 2 ∧ Spec.Aes.xtime b = Spec.Aes.gfmul 2 b := SpecFacts.xtime_is_mul_x
 
 /-- {01} is the unit and products of bytes are bytes (checked on the row/column of 1 and the extreme element) -/
-theorem gfmul_one : ∀ b < 256, Spec.Aes.gfmul b 1 = b ∧ Spec.Aes.gfmul 1 b = b ∧ Spec.Aes.gfmul b 255 < 256 := by decide +kernel
+theorem gfmul_one : ∀ b < 256, Spec.Aes.gfmul b 1 = b ∧ Spec.Aes.gfmul 1 b = b ∧ Spec.Aes.gfmul b 255 < 256 := SpecFacts.gfmul_one
 
 /-- the S-box of §5.1.1 and the inverse S-box of §5.3.2 are mutually inverse -/
-theorem spec_invSbox_sbox : ∀ b < 256, Spec.Aes.invSbox (Spec.Aes.sbox b) = b ∧ Spec.Aes.sbox (Spec.Aes.invSbox b) = b := by
-  decide +kernel
+theorem spec_invSbox_sbox : ∀ b < 256, Spec.Aes.invSbox (Spec.Aes.sbox b) = b ∧ Spec.Aes.sbox (Spec.Aes.invSbox b) = b :=
+  SpecFacts.spec_invSbox_sbox
 
 /-! ### tables of the source = the standard (complete finite domains, decided by the kernel) -/
 
@@ -106,37 +107,20 @@ theorem block_size_rejected (K B : List Nat) (h : B.length ≠ 16) :
 
 /-! ### non-vacuity and known answers: FIPS 197 Appendix C.1–C.3 and Appendix B through Spec.Aes, in the kernel -/
 
-def k128 : List Nat := [0x00,0x01,0x02,0x03,0x04,0x05,0x06,0x07,0x08,0x09,0x0a,0x0b,0x0c,0x0d,0x0e,0x0f]
-def k192 : List Nat := k128 ++ [0x10,0x11,0x12,0x13,0x14,0x15,0x16,0x17]
-def k256 : List Nat := k192 ++ [0x18,0x19,0x1a,0x1b,0x1c,0x1d,0x1e,0x1f]
-def ptC : List Nat := [0x00,0x11,0x22,0x33,0x44,0x55,0x66,0x77,0x88,0x99,0xaa,0xbb,0xcc,0xdd,0xee,0xff]
-def ct128 : List Nat := [0x69,0xc4,0xe0,0xd8,0x6a,0x7b,0x04,0x30,0xd8,0xcd,0xb7,0x80,0x70,0xb4,0xc5,0x5a]
-def ct192 : List Nat := [0xdd,0xa9,0x7c,0xa4,0x86,0x4c,0xdf,0xe0,0x6e,0xaf,0x70,0xa0,0xec,0x0d,0x71,0x91]
-def ct256 : List Nat := [0x8e,0xa2,0xb7,0xca,0x51,0x67,0x45,0xbf,0xea,0xfc,0x49,0x90,0x4b,0x49,0x60,0x89]
-def kB : List Nat := [0x2b,0x7e,0x15,0x16,0x28,0xae,0xd2,0xa6,0xab,0xf7,0x15,0x88,0x09,0xcf,0x4f,0x3c]
-def ptB : List Nat := [0x32,0x43,0xf6,0xa8,0x88,0x5a,0x30,0x8d,0x31,0x31,0x98,0xa2,0xe0,0x37,0x07,0x34]
-def ctB : List Nat := [0x39,0x25,0x84,0x1d,0x02,0xdc,0x09,0xfb,0xdc,0x11,0x85,0x97,0x19,0x6a,0x0b,0x32]
+/- the FIPS 197 Appendix B / C.1–C.3 vectors (`k128 … ctB`) and their kernel evaluation through Spec.Aes are in
+   Proofs/C02_Aes/SpecFacts.lean (built in parallel) -/
+open SpecFacts
 
-set_option maxRecDepth 100000 in
-example : Spec.Aes.cipher k128 ptC = ct128 ∧ Spec.Aes.invCipher k128 ct128 = ptC := by decide +kernel
-set_option maxRecDepth 100000 in
-example : Spec.Aes.cipher k192 ptC = ct192 ∧ Spec.Aes.invCipher k192 ct192 = ptC := by decide +kernel
-set_option maxRecDepth 100000 in
-example : Spec.Aes.cipher k256 ptC = ct256 ∧ Spec.Aes.invCipher k256 ct256 = ptC := by decide +kernel
-set_option maxRecDepth 100000 in
-example : Spec.Aes.cipher kB ptB = ctB ∧ Spec.Aes.invCipher kB ctB = ptB := by decide +kernel
-/-- §4.2 example {57}•{83} = {c1}, §4.2.1 {57}•{13} = {fe}, §5.1.1 S-box({53}) = {ed}, Rcon[10] = {36} -/
-example : Spec.Aes.gfmul 0x57 0x83 = 0xc1 ∧ Spec.Aes.gfmul 0x57 0x13 = 0xfe ∧ Spec.Aes.sbox 0x53 = 0xed
-    ∧ Spec.Aes.rcon 10 = [0x36, 0, 0, 0] := by decide +kernel
 /-- the hypotheses of the refinement theorems are inhabited by the FIPS vectors of all three key sizes -/
 theorem kat_inputs_ok : KeyOk k128 ∧ KeyOk k192 ∧ KeyOk k256 ∧ St ptC := by
   refine ⟨⟨by decide, ?_⟩, ⟨by decide, ?_⟩, ⟨by decide, ?_⟩, ⟨by decide, ?_⟩⟩ <;>
     (unfold IsBytes; decide +kernel)
--- and so the model itself reproduces FIPS 197 C.3
-set_option maxRecDepth 100000 in
-example : Aes.enc k256 ptC = .ok ct256 := by
-  rw [enc_refines k256 ptC kat_inputs_ok.2.2.1 kat_inputs_ok.2.2.2]
-  exact congrArg Except.ok (by decide +kernel)
+/-- and so the model itself (the code's tables and control flow) reproduces FIPS 197 C.1 and C.3, both directions -/
+example : Aes.enc k128 ptC = .ok ct128 ∧ Aes.enc k256 ptC = .ok ct256 ∧ Aes.dec k256 ct256 = .ok ptC := by
+  obtain ⟨h1, _, h3, hp⟩ := kat_inputs_ok
+  have hc : St ct256 := ⟨by decide, by unfold IsBytes; decide +kernel⟩
+  rw [enc_refines k128 ptC h1 hp, enc_refines k256 ptC h3 hp, dec_refines k256 ct256 h3 hc, kat_c1.1, kat_c3.1, kat_c3.2]
+  exact ⟨rfl, rfl, rfl⟩
 /-- size rejection is not vacuous -/
 example : ¬ ([0, 1, 2] : List Nat).length = 16 := by decide
 
